@@ -4,11 +4,15 @@
 # and /tmp/seed-<ID>.prompt.txt. The agent is started with: "Read the file /tmp/seed-<ID>.prompt.txt and carry out
 # exactly the task it describes. Work only inside /tmp/seed-<ID>; never touch /verif or /repo."
 cd "$(dirname "$0")/../.."
-for ID in "$@"; do
-  git -C /repo worktree add -q --detach /tmp/seed-$ID HEAD || exit 9
-  python3 - $ID <<'PY'
+# An argument "C05=mechanism words" adds a focus line naming one of the property's own mechanisms (round 2:
+# a second, different change per property); the worktree is then /tmp/seed-C05-2.
+for ARG in "$@"; do
+  ID=${ARG%%=*}; FOCUS=""; TAG=$ID
+  if [ "$ARG" != "$ID" ]; then FOCUS=${ARG#*=}; TAG=$ID-2; fi
+  git -C /repo worktree add -q --detach /tmp/seed-$TAG HEAD || exit 9
+  python3 - $ID "$TAG" "$FOCUS" <<'PY'
 import json,sys
-ID=sys.argv[1]
+ID,TAG,FOCUS=sys.argv[1:4]
 for l in open('/verif/properties.jsonl'):
     d=json.loads(l)
     if d['id']==ID: break
@@ -25,10 +29,14 @@ def fmt(v):
     return str(v)
 for k,lab in (('state','State'),('mechanism','Mechanisms'),('observe_at','Observable at')):
     if anch.get(k): lines.append(f"{lab}: "+"; ".join(fmt(x) for x in anch[k]))
+if FOCUS:
+    hit=[fmt(x) for x in anch.get('mechanism',[]) if FOCUS.lower() in fmt(x).lower()]
+    if not hit: sys.exit("focus matches no mechanism of "+ID)
+    lines+=["", "For this run concentrate on this mechanism of the property (another run covers the others): "+hit[0]]
 text="\n".join(lines)
-open(f'/tmp/seed-{ID}.property.txt','w').write(text+"\n")
+open(f'/tmp/seed-{TAG}.property.txt','w').write(text+"\n")
 t=open('/verif/tools/seeding/prompt.template.txt').read()
-open(f'/tmp/seed-{ID}.prompt.txt','w').write(t.replace('__WT__',f'/tmp/seed-{ID}').replace('__PROP__',f'/tmp/seed-{ID}.property.txt').replace('__PROPTEXT__',text))
+open(f'/tmp/seed-{TAG}.prompt.txt','w').write(t.replace('__WT__',f'/tmp/seed-{TAG}').replace('__PROP__',f'/tmp/seed-{TAG}.property.txt').replace('__PROPTEXT__',text))
 PY
 done
 echo ok
